@@ -250,7 +250,12 @@ class GenericGen:
                     ak, a = "container", r.choice(["Option<i32>", "Option<Vec<String>>", f"Option<{self.leaves[0].name}>"])
                 if p in it.concrete:
                     # `concrete(U = X)` promises that U is X: only that instantiation is meaningful
-                    ak, a = "concrete", it.concrete[p]
+                    # (the type still implements TS for every other argument, and its declaration has to stay the same text:
+                    # some instantiations pass another argument; they take part in the comparisons of texts only)
+                    if k >= 2 and (k + len(it.id) + params.index(p)) % 2 == 0 and a != it.concrete[p]:
+                        ak = "off-concrete"
+                    else:
+                        ak, a = "concrete", it.concrete[p]
                 args.append(a)
                 kinds.append(ak)
             full = (["'static"] if lifetime else []) + args + (["3"] if const else [])
